@@ -130,3 +130,19 @@ Definition deque_pop_front {A} (q : list A) : list A * option A :=
   match q with [] => ([], None) | x :: r => (r, Some x) end.
 Definition set_insert {A} (eqb : A -> A -> bool) (s : list A) (x : A) : list A * bool :=
   if existsb (eqb x) s then (s, false) else (x :: s, true).
+
+(* format!("{:x}" / "{:02x}" / "{:04x}", x) on a u32: lower-case hexadecimal digits, most significant
+   first, padded on the left with '0' to the width (a model of core::fmt, tied to the crate by the
+   correspondence check of C08); char::from_u32: None for surrogates and values above 0x10FFFF *)
+Definition hexdig_ (d : N) : N := if d <? 10 then 48 + d else 87 + d.
+Fixpoint hexbits_ (p : positive) (k : N) (d : N) : list N :=
+  match p with
+  | xH => [d + k]
+  | xO q => if k =? 8 then d :: hexbits_ q 1 0 else hexbits_ q (2 * k) d
+  | xI q => if k =? 8 then (d + k) :: hexbits_ q 1 0 else hexbits_ q (2 * k) (d + k)
+  end.
+Definition fmt_hex (w : nat) (x : N) : list N :=
+  let ds := match x with N0 => [48] | Npos p => rev (map hexdig_ (hexbits_ p 1 0)) end in
+  repeat 48 (w - length ds) ++ ds.
+Definition char_from_u32 (x : N) : option N :=
+  if (x <? 55296) || ((57343 <? x) && (x <=? 1114111)) then Some x else None.
